@@ -232,6 +232,23 @@ func (x *Exec) lookupIdent(env *Env, c *Clause, name string) (SymVal, types.Type
 			}
 			a := x.findLocal(name)
 			if a == nil {
+				// a renamed parameter: its entry value where the contract speaks about the entry state, its
+				// spill slot (if it has one) or its value otherwise - exactly as under its own name
+				if p := x.W.paramAlias(x.fn, name); p != nil {
+					x.note("contract identifier %q resolved to parameter %q (same position) through the baseline", name, p.Name())
+					if env.paramsEntry {
+						if v, ok := x.entryParams[p]; ok {
+							return v, p.Type()
+						}
+					}
+					if a2 := x.findLocal(p.Name()); a2 != nil {
+						a = a2
+					} else if v, ok := fr.vals[p]; ok {
+						return v, p.Type()
+					}
+				}
+			}
+			if a == nil {
 				a = x.baselineLocal(name)
 			}
 			if a != nil {
